@@ -608,9 +608,14 @@ class Ev:
                 return self.unwrapped(args[0])
         # x.map(|v| f(v)) on Option/Result: the payload is the closure body applied to the payload of x (wrapper and payload are one term here)
         if len(args) == 2 and strip_generics(path) in ("core::option::Option::map", "core::result::Result::map") and isinstance(args[1], tuple) and args[1] and args[1][0] == "closure":
-            r = self.apply_closure(args[1], [self.payload_term(args[0])])
-            if r is not None:
-                return r
+            cfn_ = self.prog.fns.get(args[1][1])
+            rty_ = (cfn_.locals[0]["ty"] if cfn_ is not None and cfn_.locals else "").strip()
+            # `x.map(|v| fallible(v))` builds a nested Result/Option: whether the outcome is Ok/Some is decided by x alone, not by what the closure
+            # returns (that is `and_then`).  Only a closure with a plain payload is reduced; the nested form stays a `map` call.
+            if not (rty_.startswith("core::result::Result<") or rty_.startswith("core::option::Option<")):
+                r = self.apply_closure(args[1], [self.payload_term(args[0])])
+                if r is not None:
+                    return r
         # x.and_then(|v| f(v)) on Option/Result: f applied to the payload (wrapper and payload are one term here)
         if len(args) == 2 and strip_generics(path) in ("core::option::Option::and_then", "core::result::Result::and_then") and isinstance(args[1], tuple) and args[1] and args[1][0] == "closure":
             r = self.apply_closure(args[1], [self.payload_term(args[0])])
@@ -624,7 +629,10 @@ class Ev:
                 return r
         # x.map(path::to::function): the function applied to the payload
         if len(args) == 2 and strip_generics(path) in ("core::option::Option::map", "core::result::Result::map") and isinstance(args[1], tuple) and args[1] and args[1][0] == "fnref":
-            return ("call", args[1][1], (args[0],), (self.fn.path, b))
+            tf_ = self.prog.fns.get(args[1][1])
+            rt_ = (tf_.locals[0]["ty"] if tf_ is not None and tf_.locals else "").strip()
+            if not (rt_.startswith("core::result::Result<") or rt_.startswith("core::option::Option<")):
+                return ("call", args[1][1], (args[0],), (self.fn.path, b))
         if f.get("trait") == "core::cmp::PartialEq" and len(args) == 2:
             r = fold_bin("Eq" if f.get("trait_method") == "eq" else "Ne", args[0], args[1])
             if r is not None:
